@@ -69,7 +69,7 @@ def r1(ctx):
     ctx.used_body(pk)
     eng = T.Engine(P)
     leaves = eng.tabulate(pk, keep_panics=True)
-    s = ("param", 0, "s")
+    s = ("param", 0, "a0")
     table = {}
     for b in range(256):
         arr = ("array", (T.I(b, "u8"), T.I(ord("x"), "u8")))
@@ -216,14 +216,18 @@ def r3(ctx):
         if lf.ret[0] != "stop":
             continue
         bytes_ = [v for t, v in lf.cond if t[0] == "cindex" and t[2] == 0 and isinstance(v, int)]
-        turn = [v for v in named_local(body, lf, "turn")]
-        tv = None
+        # the colour this path has decided on: the only Color constant held by a local (directly, in the (Color, rest) pair, or in the
+        # Ok((Color, rest)) of a helper) when the next field starts; independent of local names and of a helper being extracted
+        cands = set()
         for i, l in enumerate(body["locals"]):
             v = lf.state.frames[0].locals.get(i)
-            if v and v[0] == "adt" and v[1] == COLOR and l.get("n") == "turn":
-                tv = v[2]
-            if v and v[0] == "tuple" and len(v[1]) == 2 and v[1][0][0] == "adt" and v[1][0][1] == COLOR:
-                tv = v[1][0][2]
+            if not v:
+                continue
+            v = eng.freeze(lf.state, v)
+            for s_ in subterms(v):
+                if s_[0] == "adt" and s_[1] == COLOR and not s_[3]:
+                    cands.add(s_[2])
+        tv = list(cands)[0] if len(cands) == 1 else None
         if len(bytes_) == 1 and tv:
             rd[bytes_[0]] = tv
     site = body.get("def_span")
@@ -301,7 +305,7 @@ def r4(ctx):
            f"{[(chr(k), v) for k, v in spec.items()]}", site=site, sample={chr(k): v for k, v in letter_bit.items()})
     ctx.used_body(PCR)
     lv = T.Engine(P).tabulate(PCR)
-    ok = all((lf.ret[1][0] == T.TRUE) == any(t[0] == "bin" and t[1] == "Eq" and v == 1 and ("param", 1, "b") in (t[2], t[3]) for t, v in lf.cond) for lf in lv)
+    ok = all((lf.ret[1][0] == T.TRUE) == any(t[0] == "bin" and t[1] == "Eq" and v == 1 and ("param", 1, "a1") in (t[2], t[3]) for t, v in lf.cond) for lf in lv)
     ctx.ob("parse_castle_rights", ok, "parse_castle_rights does not return true exactly when the first byte equals the expected letter", site=P.body(PCR).get("def_span"))
 
     def read(text):
@@ -338,7 +342,7 @@ def r4(ctx):
                 if ic and ic[0] == tab_key and len(ic[1]) == 2 and cond_app:
                     c, s = [strip_casts(x) for x in ic[1]]
                     a = cond_app[0][2]
-                    ok_inner = c == ("discr", a[2]) and s == ("discr", a[1]) and a[1] == ("param", 1, "side")
+                    ok_inner = c == ("discr", a[2]) and s == ("discr", a[1]) and a[1] == ("param", 1, "a1")
         calls_outer = [t["f"].get("fn_args", t["f"].get("fn", "")) for _, t in P.calls(CR_FMT)]
         calls_c0 = [t["f"].get("fn_args", t["f"].get("fn", "")) for _, t in P.calls(CR_FMT + "::{closure#0}")]
         nest_ok = (any(c.endswith("Color::all") for c in calls_outer) and any("flat_map" in c for c in calls_outer)
@@ -356,7 +360,7 @@ def r4(ctx):
         # contains(side, colour) tests bit side + 2*colour (offset formula is C02.R1)
         cl = T.Engine(P).tabulate(CONTAINS)
         e0 = T.Engine(P)
-        off = e0.binop("Add", ("cast", "u32", ("discr", ("param", 1, "side"))), e0.binop("Mul", ("cast", "u32", ("discr", ("param", 2, "color"))), T.I(2, "u32")))
+        off = e0.binop("Add", ("cast", "u32", ("discr", ("param", 1, "a1"))), e0.binop("Mul", ("cast", "u32", ("discr", ("param", 2, "a2"))), T.I(2, "u32")))
         want = e0.binop("Ne", e0.binop("BitAnd", ("field", ("param", 0, "self"), "0"), e0.binop("Shl", T.I(1, "u8"), off)), T.I(0, "u8"))
         ctx.ob("contains(side, colour)", len(cl) == 1 and cl[0].ret == want, f"CastleRights::contains is {[T.show(l.ret)[:120] for l in cl]}", site=P.body(CONTAINS).get("def_span"))
         if form_ok:
@@ -366,6 +370,59 @@ def r4(ctx):
             for k in range(16):
                 s_ = ""
                 for cd in (0, 1):              # ascending discriminants: the order the enum iterators yield (C19.R5)
+                    for sd in (0, 1):
+                        if k >> (sd + 2 * cd) & 1:
+                            s_ += chr(letters[cd * 2 + sd])
+                texts[k] = s_ if k else "-"
+    elif len(cfg_of(P.body(CR_FMT)).loops()) == 2:
+        # loop form: for colour in Color::all() { for side in Side::all() { if contains(side, colour) { write_char(TABLE[colour][side]) } } }
+        cg = cfg_of(P.body(CR_FMT))
+        lps = cg.loops()
+        (h_out, b_out), (h_in, b_in) = sorted(lps.items(), key=lambda kv: -len(kv[1]))
+        rets, loops, _ = T.Engine(P, opaque={CONTAINS}).paths(CR_FMT)
+        tab_key = CR_FMT + "::CASTLE_RIGHTS"
+        letters = chars_static(P, tab_key, (2, 2)) if tab_key in P.values else None
+        seen, ok_cells = set(), letters is not None and set(b_in) < set(b_out)
+        iter_of = {}
+        for lf in loops:
+            for t_, v in lf.cond:
+                for s_ in subterms(t_):
+                    if s_[0] == "loopvar" and s_[1] in (h_out, h_in):
+                        iter_of.setdefault(s_[1], set()).add("Color" if "AllColorIter" in str(s_[3]) else ("Side" if "AllSideIter" in str(s_[3]) else "?"))
+            ca = [(t_, v) for t_, v in lf.cond if t_[0] == "app" and t_[1] == CONTAINS]
+            em = [e for e in emits(lf) if e[1] in ("char", "lit", "str")]
+            if lf.ret[1] != h_in or not ca:
+                ok_cells &= not em
+                continue
+            (app, v) = ca[0]
+            side, colour = app[2][1], app[2][2]
+            if v != 1:
+                ok_cells &= not em
+                continue
+            ic = index_chain(em[0][2]) if len(em) == 1 and em[0][1] == "char" else None
+            good = (ic is not None and ic[0] == tab_key and len(ic[1]) == 2 and side[0] == colour[0] == "adt"
+                    and [strip_casts(x) for x in ic[1]] == [T.I(g.color[0 if colour[2] == "White" else 1], "usize"), T.I(g.side["K" if side[2] == "King" else "Q"], "usize")])
+            ok_cells &= bool(good)
+            seen.add((colour[2], side[2]))
+        nest_ok = iter_of.get(h_out) == {"Color"} and iter_of.get(h_in) == {"Side"}
+        dash = {}
+        for lf in rets:
+            for t_, v in lf.cond:
+                if t_[0] == "bin" and t_[1] in ("Eq", "Ne") and T.I(0, "u8") in (t_[2], t_[3]):
+                    dash[(v == 1) if t_[1] == "Eq" else (v == 0)] = [e[2] for e in emits(lf) if e[1] == "lit"]
+        form_ok = ok_cells and len(seen) == 4 and nest_ok and dash.get(True) == ["-"] and dash.get(False) == []
+        ctx.ob("writer form (loops)", form_ok, f"castling writer (nested loops): cells ok={ok_cells} over {sorted(seen)}, colour-major/side-minor nesting={nest_ok}, '-' iff empty={dash}", site=wsite,
+               sample={"table": "".join(chr(c_) for c_ in letters) if letters else None})
+        cl = T.Engine(P).tabulate(CONTAINS)
+        e0 = T.Engine(P)
+        off = e0.binop("Add", ("cast", "u32", ("discr", ("param", 1, "a1"))), e0.binop("Mul", ("cast", "u32", ("discr", ("param", 2, "a2"))), T.I(2, "u32")))
+        want = e0.binop("Ne", e0.binop("BitAnd", ("field", ("param", 0, "self"), "0"), e0.binop("Shl", T.I(1, "u8"), off)), T.I(0, "u8"))
+        ctx.ob("contains(side, colour)", len(cl) == 1 and cl[0].ret == want, f"CastleRights::contains is {[T.show(l.ret)[:120] for l in cl]}", site=P.body(CONTAINS).get("def_span"))
+        if form_ok:
+            texts = {}
+            for k in range(16):
+                s_ = ""
+                for cd in (0, 1):
                     for sd in (0, 1):
                         if k >> (sd + 2 * cd) & 1:
                             s_ += chr(letters[cd * 2 + sd])
@@ -426,7 +483,7 @@ def r5(ctx):
 
     def file_from_u8(name, args):
         if name.endswith("File::from_u8") and T.is_const(args[0]):
-            return T.eval_table(e3, from_u8, {("param", 0, "file"): args[0]})
+            return T.eval_table(e3, from_u8, {("param", 0, "a0"): args[0]})
         return None
 
     def payload_env(term, fvar):
